@@ -160,6 +160,8 @@ def observe_c01(scn: dict) -> dict | None:
         modes = [("explicit", dict(variables=y, time=t))]
         if p["default"]:
             modes.append(("default", {}))
+        elif all(close(float(fn_to_dict(scn["init"])[v]), y[v]) for v in c["vars"]):
+            modes.append(("time only", dict(time=t)))   # the state omitted, the time given
         for mode, kw in modes:
             tag = f"{mode}@t={t}"
             a = m.get_args(**kw)
